@@ -81,6 +81,46 @@ impl File {
     pub fn options() -> OpenOptions {
         OpenOptions::new()
     }
+    pub async fn create_new(path: impl AsRef<Path>) -> io::Result<File> {
+        open_with(
+            path.as_ref(),
+            OpenFlags {
+                write: true,
+                create_new: true,
+                ..Default::default()
+            },
+        )
+        .await
+    }
+    /// Take over a descriptor opened through the blocking API (same open file description).
+    pub fn from_std(f: super::std_fs::File) -> File {
+        let f = std::mem::ManuallyDrop::new(f);
+        File {
+            ofd: f.ofd,
+            pos: f.pos,
+            append: f.append,
+            rd: None,
+            wr: None,
+        }
+    }
+    /// Hand the descriptor back to the blocking API, after the write in flight has finished.
+    pub async fn into_std(mut self) -> super::std_fs::File {
+        let _ = std::future::poll_fn(|cx| self.poll_inflight(cx)).await;
+        let me = std::mem::ManuallyDrop::new(self);
+        super::std_fs::File {
+            ofd: me.ofd,
+            pos: me.pos,
+            append: me.append,
+        }
+    }
+    pub async fn try_clone(&self) -> io::Result<File> {
+        crate::kernel::note_unsupported("tokio File::try_clone (dup of a simulated descriptor)");
+        Err(io::Error::new(io::ErrorKind::Unsupported, "try_clone is not simulated"))
+    }
+    pub async fn set_permissions(&self, _p: super::std_fs::Permissions) -> io::Result<()> {
+        Ok(())
+    }
+    pub fn set_max_buf_size(&mut self, _n: usize) {}
     pub async fn sync_all(&self) -> io::Result<()> {
         let ofd = self.ofd;
         aop(OpKind::Fsync, true, move |st, rec| {
@@ -317,6 +357,12 @@ impl OpenOptions {
         self.fl.create_new = v;
         self
     }
+    pub fn mode(&mut self, _m: u32) -> &mut Self {
+        self
+    }
+    pub fn custom_flags(&mut self, _f: i32) -> &mut Self {
+        self
+    }
     pub async fn open(&self, path: impl AsRef<Path>) -> io::Result<File> {
         open_with(path.as_ref(), self.fl).await
     }
@@ -519,4 +565,84 @@ fn _fut_is_send() {
     is_send(read("x"));
     is_send(copy("a", "b"));
     let _: Option<Pin<Box<dyn Future<Output = ()> + Send>>> = None;
+}
+
+
+pub async fn remove_dir_all(path: impl AsRef<Path>) -> io::Result<()> {
+    // depth-first, one simulated call per entry, like the blocking version
+    let root = path.as_ref().to_path_buf();
+    let mut stack: Vec<(PathBuf, bool)> = vec![(root, false)];
+    while let Some((p, expanded)) = stack.pop() {
+        if expanded {
+            remove_dir(&p).await?;
+            continue;
+        }
+        stack.push((p.clone(), true));
+        let mut rd = read_dir(&p).await?;
+        while let Some(e) = rd.next_entry().await? {
+            if e.file_type().await?.is_dir() {
+                stack.push((e.path(), false));
+            } else {
+                remove_file(e.path()).await?;
+            }
+        }
+    }
+    Ok(())
+}
+
+pub struct DirEntry(super::std_fs::DirEntry);
+
+impl DirEntry {
+    pub fn path(&self) -> PathBuf {
+        self.0.path()
+    }
+    pub fn file_name(&self) -> std::ffi::OsString {
+        self.0.file_name()
+    }
+    pub async fn file_type(&self) -> io::Result<super::std_fs::FileType> {
+        self.0.file_type()
+    }
+    pub async fn metadata(&self) -> io::Result<Metadata> {
+        symlink_metadata(self.0.path()).await
+    }
+}
+
+pub struct ReadDir {
+    items: std::vec::IntoIter<DirEntry>,
+}
+
+impl ReadDir {
+    pub async fn next_entry(&mut self) -> io::Result<Option<DirEntry>> {
+        Ok(self.items.next())
+    }
+}
+
+pub async fn read_dir(path: impl AsRef<Path>) -> io::Result<ReadDir> {
+    let dir = path.as_ref().to_path_buf();
+    let p = pstr(&dir);
+    let list = aop(OpKind::Readdir, false, move |st, rec| {
+        let pid = rec.pid;
+        st.sys_readdir(pid, &p, rec)
+    })
+    .await?;
+    let items: Vec<DirEntry> = list
+        .into_iter()
+        .map(|(name, kind)| DirEntry(super::std_fs::DirEntry { dir: dir.clone(), name, kind }))
+        .collect();
+    Ok(ReadDir { items: items.into_iter() })
+}
+
+pub async fn read_link(path: impl AsRef<Path>) -> io::Result<PathBuf> {
+    let p = pstr(path.as_ref());
+    aop(OpKind::Readlink, false, move |st, rec| {
+        let pid = rec.pid;
+        st.sys_readlink(pid, &p, rec)
+    })
+    .await
+    .map(PathBuf::from)
+}
+
+pub async fn hard_link(_a: impl AsRef<Path>, _b: impl AsRef<Path>) -> io::Result<()> {
+    crate::kernel::note_unsupported("hard links");
+    Err(io::Error::new(io::ErrorKind::Unsupported, "hard links are not simulated"))
 }
